@@ -18,6 +18,7 @@ type vStForm struct {
 	pre, mid, post string // text around the value digits (and the extra digits for x1)
 	typ, name, op  string
 	hasExtra       bool
+	computed       bool // '&name = expr': the value reported is the computed value of the written text
 }
 
 // spellings of one assignment: name, separator, value digits
@@ -33,6 +34,8 @@ var vC18AssignForms = []vStForm{
 	{pre: "属性*:", typ: "set.x0", name: "属性"},
 	{pre: "属性*", mid: ":", typ: "set.x1", name: "属性", hasExtra: true},
 	{pre: "知识(", post: ")", typ: "set", name: "知识"},
+	{pre: "&手枪=", typ: "set", name: "手枪", computed: true},
+	{pre: "&射击:弓箭 = ", typ: "set", name: "射击:弓箭", computed: true},
 }
 
 var vC18ModifyForms = []vStForm{
@@ -111,8 +114,10 @@ func vC18RunN(forms []vStForm, minEdits, maxEdits int, rotate bool) {
 	type want struct {
 		f          vStForm
 		val, extra int64
+		text       string
 	}
 	var wants []want
+	lastSepComma := false
 	for i := 0; i < k; i++ {
 		var f vStForm
 		nd := 1
@@ -135,14 +140,23 @@ func vC18RunN(forms []vStForm, minEdits, maxEdits int, rotate bool) {
 		db, dv := vDigits("v", nd)
 		src = append(src, db...)
 		src = append(src, f.post...)
+		// "(v)&name" would be a bitwise AND inside the parenthesised value:
+		// a computed edit after a parenthesised one needs its comma
+		if f.computed && i > 0 && wants[i-1].f.post == ")" {
+			vAssume(lastSepComma)
+		}
 		w.val = dv
+		w.text = string(db)
 		wants = append(wants, w)
 		if i+1 < k {
+			sep := ""
 			if rotate {
-				src = append(src, vC18Seps[(s0+i)%len(vC18Seps)]...)
+				sep = vC18Seps[(s0+i)%len(vC18Seps)]
 			} else {
-				src = append(src, vC18Seps[vChoice("sep", len(vC18Seps))]...)
+				sep = vC18Seps[vChoice("sep", len(vC18Seps))]
 			}
+			src = append(src, sep...)
+			lastSepComma = len(sep) > 0 && sep[0] == ','
 		}
 	}
 	vm := vNewVM()
@@ -166,6 +180,14 @@ func vC18RunN(forms []vStForm, minEdits, maxEdits int, rotate bool) {
 		vAssert(c.typ == w.f.typ, "edit-kind-in-source-order")
 		vAssert(c.name == w.f.name, "name-verbatim")
 		vAssert(c.op == w.f.op, "operator-verbatim")
+		if w.f.computed {
+			cd, ok := c.val.ReadComputed()
+			vAssert(ok, "value-is-a-computed-value")
+			if ok {
+				vAssert(cd.Expr == w.text, "computed-value-has-the-written-expression")
+			}
+			continue
+		}
 		iv, ok := c.val.ReadInt()
 		vAssert(ok, "value-is-an-integer")
 		vAssert(int64(iv) == w.val, "value-is-the-written-value (sign-normalised)")
@@ -179,7 +201,7 @@ func vC18RunN(forms []vStForm, minEdits, maxEdits int, rotate bool) {
 	}
 }
 
-//vh:prop=C18 tiers=quick,thorough overrides=formatFriendlyError unwind=400 unwind_ok=1 budget_s=2400 quick:P.maxEdits=2 thorough:P.maxEdits=3 bounds="lists of 1..maxEdits (2 quick, 3 thorough) attribute assignments, each in one of 11 spellings (bare, ':' '=' with and without spaces, ASCII name, quoted name with space and digit, namespaced names, '*' and '*k' multipliers, parenthesised value) joined by one of 4 separators, values 1-2 symbolic decimal digits (with three edits only the first value may have two): the callback log equals the written list"
+//vh:prop=C18 tiers=quick,thorough overrides=formatFriendlyError unwind=400 unwind_ok=1 budget_s=2400 quick:P.maxEdits=2 thorough:P.maxEdits=3 bounds="lists of 1..maxEdits (2 quick, 3 thorough) attribute assignments, each in one of 13 spellings (computed '&name=expr' with plain and namespaced name, bare, ':' '=' with and without spaces, ASCII name, quoted name with space and digit, namespaced names, '*' and '*k' multipliers, parenthesised value) joined by one of 4 separators, values 1-2 symbolic decimal digits (with three edits only the first value may have two): the callback log equals the written list"
 func VH_C18_assign() {
 	vC18Run(vC18AssignForms, vParam("maxEdits", 2))
 }
@@ -189,7 +211,7 @@ func VH_C18_modify() {
 	vC18Run(vC18ModifyForms, vParam("maxEdits", 2))
 }
 
-//vh:prop=C18 tiers=quick,thorough overrides=formatFriendlyError unwind=400 unwind_ok=1 budget_s=2400 quick:P.maxEdits=4 thorough:P.maxEdits=6 bounds="long lists: 3..maxEdits (4 quick, 6 thorough) edits, assignments and modifications; the first spelling and the first separator are choices (11 / 7 spellings, 4 separators), later edits take the following spellings and separators in turn; values one symbolic digit: the callback log equals the written list"
+//vh:prop=C18 tiers=quick,thorough overrides=formatFriendlyError unwind=400 unwind_ok=1 budget_s=2400 quick:P.maxEdits=4 thorough:P.maxEdits=6 bounds="long lists: 3..maxEdits (4 quick, 6 thorough) edits, assignments and modifications; the first spelling and the first separator are choices (13 / 7 spellings, 4 separators), later edits take the following spellings and separators in turn; values one symbolic digit: the callback log equals the written list"
 func VH_C18_long() {
 	if vChoice("family", 2) == 0 {
 		vC18RunN(vC18AssignForms, 3, vParam("maxEdits", 4), true)
